@@ -119,6 +119,7 @@ type Exec struct {
 	runq          []*gor
 	xfer          interface{}
 	schedExplore  bool
+	preemptLeft   int // remaining preemptive context switches under schedule exploration (-1: unbounded)
 	chanN         int
 	leakDesc      string
 	Cuts          int
